@@ -31,12 +31,24 @@ def check_c13(ctx):
     q = ctx.tier == "quick"
     nmax, pmax, bmax = (24, 8, 3) if q else (60, 12, 5)
     cfgs = boxes.twolevel(nmax, pmax, bmax, passes=2)
+    # TLC-guided selection (see optim.planner_scan): blocks whose first advance fails the Bellman
+    # equation of the binomial recurrence are added as one-block configurations
+    from . import optim
+    suspects, scanned = optim.planner_scan(ctx, 120 if q else 300, 8)
+    guided = 0
+    for n, s, traj in sorted(suspects):
+        if guided >= 10:
+            break
+        cfgs.append(mkcfg("TwoLevel", N=n, passes=1, period=n, ram=s - 1, st=0, traj=traj))
+        guided += 1
     traces = record.record_many(cfgs)
     verdicts = fw.validate(ctx, traces, module="TraceTwoLevel")
     viols = _collect("C13", traces, verdicts)
     cov = _cov(traces, f"TwoLevel N<={nmax}, period<={pmax}, binomial_snapshots<={bmax}, both storages, "
                        "both trajectories, 2 adjoint passes",
                ["C13.fwd_pattern", "C13.extra_storage", "C13.block_opt"])
+    cov["planner_entries_scanned"] = scanned
+    cov["guided_configurations"] = guided
     return viols, cov, ["GW closed form (GWForm.tla), tied to the exhaustive ExecOpt search by C05"]
 
 
